@@ -201,6 +201,12 @@ pub fn run(rep: &mut Report) {
         });
         rep.absorb(name, &format!("all {} ordered pairs of circuits with <= {} gates on {} qubits", n * n, d, q), true, None, t0, stats);
     }
+    {
+        let t0 = Instant::now();
+        let mut st = Stats::default();
+        head_tail_family(&mut st, if quick { 3 } else { 4 });
+        rep.absorb("head/tail exchanges", "every head of <= 3 (thorough 4) Pauli / S / T gates on 2 qubits followed by one of 4 entangling tails (phase gadgets after simplification), against the same circuit with two adjacent head gates exchanged", true, None, t0, st);
+    }
     // constructed partners
     for (name, q, alpha, d) in if quick { vec![("partners K(2,3,A_ct)", 2usize, alpha_ct(2), 3usize), ("partners K(3,1,A_full)", 3, alpha_full(3), 1), ("partners K(2,1,A_tol)", 2, alpha_tol(2), 1)] } else { vec![("partners K(2,3,A_ct)", 2, alpha_ct(2), 3), ("partners K(3,2,A_ct)", 3, alpha_ct(3), 2), ("partners K(3,2,A_full)", 3, alpha_full(3), 2), ("partners K(2,2,A_tol)", 2, alpha_tol(2), 2)] } {
         let t0 = Instant::now();
@@ -217,6 +223,45 @@ pub fn run(rep: &mut Report) {
         });
         rep.absorb(name, "each circuit against: itself, its re-extraction, inserted cancelling pairs, a commuted pair, one gate more / less, global phases -1 and i, a Hadamard on a wire, a wire permutation, conjugation by SWAP, an extra qubit (both orders)", true, None, t0, stats);
     }
+}
+
+/// heads of single-qubit Pauli / phase gates followed by a fixed entangling tail; partner = the same circuit with two
+/// adjacent head gates exchanged (equal when they commute, different otherwise: the checker must not be fooled)
+fn head_tail_family(st: &mut Stats, head_depth: usize) {
+    let q = 2;
+    let mut alpha = vec![];
+    for i in 0..q {
+        for t in [NOT, Z, T, S] {
+            alpha.push(g1(t, i));
+        }
+    }
+    let tails: Vec<Vec<Gate>> = vec![
+        vec![g1(HAD, 0), g1(HAD, 1), Gate::new(CZ, vec![0, 1]), Gate::new(CNOT, vec![0, 1])],
+        vec![g1(HAD, 0), Gate::new(CNOT, vec![0, 1]), g1(T, 1), Gate::new(CNOT, vec![0, 1]), g1(HAD, 0)],
+        vec![Gate::new(CNOT, vec![1, 0]), g1(HAD, 1), g1(T, 0), Gate::new(CZ, vec![0, 1])],
+        vec![g1(HAD, 0), g1(HAD, 1), Gate::new(CZ, vec![0, 1]), g1(HAD, 0), g1(T, 0), g1(HAD, 1)],
+    ];
+    let n = circuit_count(alpha.len(), head_depth);
+    let stats = sweep_range(n, |st, idx| {
+        let head = circuit_at(q, &alpha, head_depth, idx);
+        if head.num_gates() < 2 {
+            return;
+        }
+        for tail in &tails {
+            let mut c = head.clone();
+            for g in tail {
+                c.push(g.clone());
+            }
+            for pos in 0..head.num_gates() - 1 {
+                let mut d = c.clone();
+                d.gates.swap(pos, pos + 1);
+                if d != c {
+                    judge_pair(st, &c, &d, "adjacent-gates-exchanged");
+                }
+            }
+        }
+    });
+    *st = std::mem::take(st).merge(stats);
 }
 
 pub fn replay(w: &Value) -> Option<Violation> {
